@@ -1255,6 +1255,7 @@ void SZ_compress_args_uint8_withinRange(unsigned char** newByteData, uint8_t *or
 	tdps->isLossless = 0;
 	//tdps->exactByteSize = 4;
 	tdps->exactDataNum = 1;
+	tdps->dataTypeSize = sizeof(uint8_t); //it goes into the flag byte of the stream
 	tdps->exactDataBytes_size = 1;
 
 	uint8_t value = oriData[0];
